@@ -215,6 +215,27 @@ def cmp_c14(case, got):
     return bad
 
 
+def cmp_c18(case, got):
+    if got.get("panic") or got.get("error"):
+        return [("spawning failed: %s" % got.get("error"), "error")]
+    bad = []
+    def txt(hs):
+        return [bytes.fromhex(h).decode("utf-8", "replace") for h in hs]
+    if got["argv"] != got["expected_argv"]:
+        bad.append(("%s command %s: the child received %r, expected %r" % (case["cmd"]["kind"], case["cmd"], txt(got["argv"]), txt(got["expected_argv"])),
+                    "argv:" + case["cmd"]["kind"]))
+    p = case["place"]
+    if got["own_group"] != p["own_group"] or (not p["own_group"] and not got["parent_group"]):
+        bad.append(("mode %s: child in its own process group = %s, expected %s" % (case["mode"], got["own_group"], p["own_group"]), "group:" + case["mode"]))
+    if got["own_session"] != p["own_session"] or (not p["own_session"] and not got["parent_session"]):
+        bad.append(("mode %s: child in its own session = %s, expected %s" % (case["mode"], got["own_session"], p["own_session"]), "session:" + case["mode"]))
+    if not got["cwd_ok"]:
+        bad.append(("the working directory set by the spawn hook is not the child's", "cwd"))
+    if not got["env_ok"]:
+        bad.append(("the environment variable set by the spawn hook did not reach the child intact", "env"))
+    return bad
+
+
 def cmp_c19(case, got):
     k = case["kind"]
     if got.get("error"):
@@ -234,6 +255,15 @@ def cmp_c19(case, got):
 
 
 SPECS = {
+    "C18": dict(
+        module="SpawnArgv.tla", runner="spawn", cmp=cmp_c18, nontrivial=lambda c: len(c["argv"]) >= 1,
+        cfgs=dict(quick=["SpawnArgv.cfg"], thorough=["SpawnArgv.cfg"]), quick_cap=1500,
+        rule="commands with at least one argument; distinct by (command shape, spawn option); tokens are bound to one of six families of awkward strings per case (empty, spaces and tabs, quotes, $ ` $( ), glob characters, newline, backslash, shell operators, multi-byte text, option look-alikes)",
+        exhaustive=True,
+        assumptions=["SpawnArgv.tla: argument vectors of up to 3 tokens, shells with up to 2 options, with / without a program option, up to 2 extra arguments, three spawn options",
+                     "a real helper process reports its argv bytes, pid, process group, session, working directory and environment; byte fidelity below std::process and process-wrap is the operating system's",
+                     "quick tier: a seeded sample of 1500 of the 4683 cases; thorough: all"],
+    ),
     "C14": dict(
         module="Discover.tla", runner="discover", cmp=cmp_c14, seeded=True, workers=8,
         nontrivial=lambda c: any(f["lines"] for f in c["files"]),
